@@ -35,27 +35,35 @@ EXTENDS FontCycleOps
 
 CONSTANTS Source,   \* "built" | "tables"
           Scale,    \* "small" | "full": size of the enumerated domains
-          Reader    \* "asis": the reader of the pinned tree | "repaired": with proposed-fixes/C01-2
+          Reader    \* "repaired": the reader of the current tree (proposed-fixes/C01-2 applied)
+                    \* "asis": the reader before that repair (kept for FontCycleTabsFP.cfg)
 
 ---------------------------------------------------------------------------
 (* Enumerated domains *)
 
 Full == Scale = "full"
-Weights == IF Full THEN {0, 250, 400, 600, 650, 700, 800} ELSE {0, 400, 650, 700}
-Widths  == IF Full THEN {0, 3, 5} ELSE {5}
+\* weight and width classes include the ends of their ranges in the full scale
+Weights == IF Full THEN {0, 1, 250, 400, 600, 650, 700, 800, 1000} ELSE {0, 400, 650, 700}
+Widths  == IF Full THEN {0, 1, 5, 9} ELSE {5}
 Angles  == IF Full THEN {0, -12582912, 5, 1605} ELSE {0, -12582912, 1605}
                                         \* 0, -12 deg (exact), rounds to 0, inexact in 16.16
-Vers    == IF Full THEN {65602, 69632} ELSE {65602}   \* 1.001007, 1.0625 (tie)
-TimesC  == {"zero", "t+ns"}
-TimesM  == {"zero", "t"}
-Uls     == {-263}
 Kinds   == {"glyf", "cff"}
 Fams    == {"plain", "bold", "italic", "semibold"}
+\* The pass-through scalars <<version 16.16, created, modified, underline in quarter units>> do not interact with
+\* the flags; they are varied together (every value occurs, not every combination): version 0, 1.001007, 1.0625
+\* (tie), 30.99998 (carry); time stamps absent / whole / fractional; underline at the int16 ends, 0, fractional.
+Aux == IF Full
+         THEN { <<0, "zero", "t", -131072>>, <<65602, "t+ns", "zero", -263>>, <<69632, "t+ns", "t", 0>>,
+                <<65536, "zero", "zero", 131068>>, <<2031615, "t", "t", -262>>, <<65602, "zero", "t", 2>>,
+                <<69632, "t", "zero", -400>>, <<98304, "t+ns", "t", 130>> }
+         ELSE { <<65602, "zero", "zero", -263>>, <<65602, "zero", "t", -263>>,
+                <<65602, "t+ns", "zero", -263>>, <<65602, "t+ns", "t", -263>> }
 
 \* an abstract font is chosen in two steps (so that TLC explores in parallel)
 Fonts1 == [fam : Fams, width : Widths, weight : Weights, kind : Kinds]
-Fonts2 == [reg : BOOLEAN, bold : BOOLEAN, ital : BOOLEAN, obl : BOOLEAN, serif : BOOLEAN, script : BOOLEAN,
-           angle : Angles, ver : Vers, created : TimesC, modified : TimesM, ul : Uls]
+Fonts2 == { [reg |-> f[1], bold |-> f[2], ital |-> f[3], obl |-> f[4], serif |-> f[5], script |-> f[6],
+             angle |-> an, ver |-> x[1], created |-> x[2], modified |-> x[3], ul |-> x[4]]
+            : f \in [1..6 -> BOOLEAN], an \in Angles, x \in Aux }
 Join(a, b) == [k \in DOMAIN a \cup DOMAIN b |-> IF k \in DOMAIN a THEN a[k] ELSE b[k]]
 
 Subs == { <<"Regular">>, <<"Bold">>, <<"Italic">>, <<"Bold", "Italic">>, <<"Semi", "Bold">>, <<"Heavy">> }
@@ -104,7 +112,7 @@ Write == /\ stage \in {0, 2, 4}
          /\ UNCHANGED <<font, g1>>
 
 Read == /\ stage \in {1, 3}
-        /\ font' = (IF Reader = "repaired" THEN ReadSpecRepaired(file) ELSE ReadSpec(file))
+        /\ font' = (IF Reader = "repaired" THEN ReadSpecRepaired(file) ELSE ReadSpec(file))   \* = RS(file)
         /\ stage' = stage + 1
         /\ g1' = IF stage = 1 THEN font' ELSE g1
         /\ UNCHANGED <<file, b2>>
@@ -130,7 +138,8 @@ PrecIdempotent  == stage = 0 => Prec(Prec(font)) = Prec(font)
 Convergent      == stage = 2 => NF(NF(font)) = NF(font)
 
 \* source "tables": emit the table set with the model's prediction (generation runs)
-FixedPointOf(T) == LET a == ReadSpec(T) IN NF(a) = a
+RS(T) == IF Reader = "repaired" THEN ReadSpecRepaired(T) ELSE ReadSpec(T)
+FixedPointOf(T) == LET a == RS(T) IN RS(WriteSpec(a)) = a
 \* (at stage 2, which has a single predecessor per behaviour; Read leaves the file in place)
 EmitTables == (Source = "tables" /\ stage = 2) =>
                  PrintT(<<"CASE", ToJson([tab |-> file, fixed |-> FixedPointOf(file)])>>)
